@@ -21,6 +21,9 @@ CLAIMED = {
     "C04": ("runtime monitoring: msdm's own LRTDPEventListener hook checks the whole value table against V* after every time step and trial (online upper-bound invariant); boundary recorder; oracle = reference V*, expected steps and exact return of the returned policy",
             "Held-on-K-executions (sampled trial histories = seeds). Exploration: the property quantifies over all histories; termination is restated as bounded progress under a watchdog (inconclusive, never a violation).",
             "trusts mon/ref/mdp.py; res.converged is not consulted", "§4 C04"),
+    "C05": ("runtime monitoring: boundary recorder on AStarSearch/BreadthFirstSearch.plan_on (results, internal assertions); oracle = own Dijkstra/BFS-level computation with exact integer costs, path validated step by step against the graph and the returned policy",
+            "Held-on-K-executions over generated digraphs x heuristics x tie-breaking x seeds x 5 presentations. Exploration: all-inputs property.",
+            "trusts the 40-line Dijkstra/BFS reference in the check; heuristics finite and consistent by construction", "§4 C05"),
 }
 
 PENDING_REASON = "check not built yet in this round (design in DESIGN.md §4); not claimed until its monitor exists and is silent on the unchanged tree"
